@@ -477,26 +477,21 @@ def find_call_kwarg(tree, callee, kw, cls=None, func=None, index=0):
     raise Unsupported(f"keyword {kw} in call to {callee} not found")
 
 
-WHITELIST = [
-    # (coq name, file, kind, spec)
-    ("check_exclusion_bounds_overlap", "microgrid/_power_managing/_bounds.py", "def", {}),
-    ("adjust_exclusion_bounds", "microgrid/_power_managing/_bounds.py", "def", {}),
-    ("clamp_to_bounds", "microgrid/_power_managing/_bounds.py", "def", {}),
-    ("max_proposal_age_us", "microgrid/_power_managing/_power_managing_actor.py", "call_kwarg",
-     {"callee": "Matryoshka", "kw": "max_proposal_age", "cls": "PowerManagingActor", "func": "__init__", "index": 0}),
-    ("max_proposal_age_op_us", "microgrid/_power_managing/_power_managing_actor.py", "call_kwarg",
-     {"callee": "Matryoshka", "kw": "max_proposal_age", "cls": "PowerManagingActor", "func": "__init__", "index": 1}),
-    ("operator_precedence", "timeseries/formula_engine/_formula_engine.py", "assign", {"name": "_operator_precedence"}),
-    ("restart_delay_us", "actor/_actor.py", "assign", {"name": "RESTART_DELAY", "cls": "Actor"}),
-]
+WL_DIR = Path(__file__).resolve().parent / "whitelist"
+# One white-list per generated file: tools/whitelist/<Name>.json -> coq/gen/<Name>.v
+# entries: [coq name, file relative to src/frequenz/sdk, kind, spec]
+#   kind "def"        : translate the function (spec: name?, cls?)
+#   kind "assign"     : constant assigned to spec.name (module level, or in spec.cls / spec.func)
+#   kind "default"    : default value of parameter spec.arg of spec.func (spec.cls?)
+#   kind "call_kwarg" : keyword spec.kw of the spec.index-th call of spec.callee in spec.cls.spec.func
 
 
-def run(out_path: Path = OUT) -> dict:
+def run_one(name: str, whitelist: list, out_path: Path) -> dict:
     status = {}
     chunks = []
     sigs = {}
     trees = {}
-    for coqname, rel, kind, spec in WHITELIST:
+    for coqname, rel, kind, spec in whitelist:
         path = SRC / rel
         try:
             if rel not in trees:
@@ -505,7 +500,9 @@ def run(out_path: Path = OUT) -> dict:
             if kind == "def":
                 fn = find_def(tree, spec.get("name", coqname), spec.get("cls"))
                 text, pts, rt = FunTr(fn, sigs).translate()
-                sigs[coqname] = (pts, rt)
+                if spec.get("name", coqname) != coqname:
+                    text = text.replace(f"Definition {fn.name} ", f"Definition {coqname} ", 1)
+                sigs[spec.get("name", coqname)] = (pts, rt)
                 chunks.append(f"(* {rel}:{fn.lineno} {fn.name} *)\n{text}\n")
             else:
                 if kind == "assign":
@@ -529,6 +526,13 @@ def run(out_path: Path = OUT) -> dict:
     if old != text:
         out_path.parent.mkdir(parents=True, exist_ok=True)
         out_path.write_text(text)
+    return status
+
+
+def run() -> dict:
+    status = {}
+    for wl in sorted(WL_DIR.glob("*.json")):
+        status.update(run_one(wl.stem, json.loads(wl.read_text()), OUT.parent / f"{wl.stem}.v"))
     return status
 
 
